@@ -22,7 +22,7 @@ ASSUMPTIONS = [
     "island list of _subnetworks(ppc) is an input of the normalisation model (graph search not modelled here)",
     "xward internal branch flow (branch side) and pz*vm^2 are subtracted from res_xward.p_mw before comparing with the extraction model",
 ]
-TRUSTED = ["python re-implementation of guards G10x / G01gp for classification, cross-checked against Coq (G10w) where emitted"]
+TRUSTED = ["python re-implementation of the C01 guards G01p/G01q (balance at ZIP buses is left to C01), see vf/c01_pf.py"]
 TOL = 2e-6
 
 
@@ -75,8 +75,9 @@ class _NormSpy:
         spy = self
 
         def wrapped(ppc, gen_mask, xward_mask, xward_pq_buses):
-            aux = net._pd2ppc_lookups.get("aux", {}).get("xward", [])
-            auxs = set(int(a) for a in aux)
+            # _gen_xward_mask: GEN_BUS against the ppc numbers of the auxiliary xward buses (bus lookup at build time)
+            aux = np.asarray(net._pd2ppc_lookups.get("aux", {}).get("xward", []), dtype=np.int64)
+            auxs = set(int(a) for a in net._pd2ppc_lookups["bus"][aux])
             gens = [(int(ppc["gen"][r, GEN_BUS]), float(ppc["gen"][r, SL_FAC]), int(ppc["gen"][r, GEN_BUS]) in auxs)
                     for r in range(ppc["gen"].shape[0])]
             xws = []
@@ -170,6 +171,9 @@ def _one(ctx, rng, T, given=None, sample=False):
         if spy.rec is not None:
             ctx.case({"net_sha": hashlib.sha1(net_js.encode()).hexdigest()}, nontrivial=False)
         return
+    if err is None and "V" not in net._ppc["internal"]:
+        ctx.count("pf_bypassed_only_reference_buses")
+        return
     # observations of the solved net first (_pd2ppc below rebuilds net._ppc)
     if err is None:
         x = pf.extract(net)
@@ -184,7 +188,7 @@ def _one(ctx, rng, T, given=None, sample=False):
     ctx.count("participants_%d" % min(sum(1 for _, w, _ in gens if w != 0), 6))
     ctx.count("xwards_%d" % len(net.xward))
     # (b) gen rows after pfsoln with widened reference sets
-    T["gen_t"].append("run_ds_gens %s %s %s %s %s" % (pf.net_term(x), pf.ref_term(x), cq.lst([cq.q(v) for v in bw_i]), pf.ss_term(x), cq.nat(x.nb)))
+    T["gen_t"].append("run_ds_gens %s %s %s %s %s %s" % (pf.net_term(x), pf.ref_term(x), cq.lst([cq.q(v) for v in bw_i]), pf.vs_term(x), pf.ss_term(x), cq.nat(x.nb)))
     T["gen_p"].append(([float(v) for v in g[:, PG]], [float(busr[k, PD]) for k in range(x.nb)], case))
     # (c) xward extraction
     xws, others = _xward_inputs(net)
@@ -200,9 +204,8 @@ def _one(ctx, rng, T, given=None, sample=False):
             br = 0.0 if math.isnan(br) else br
             impl_x.append(None if math.isnan(p) else p - v * v * r["pz"] * r["on"] - br)
         pdcol = [float(busr[k, PD]) for k in range(busr.shape[0])]
-        T["xw_t"].append("run_xward %s %s %s" % (
-            cq.lst([cq.q(v) for v in pdcol]),
-            cq.lst(["(mkNe %s %s %s)" % (cq.nat(b), cq.q(p), cq.b(i)) for b, p, i in others]),
+        T["xw_t"].append("run_xward %s %s %s %s" % (
+            pf.net_term(x), pf.vs_term(x), cq.lst([cq.q(v, 40) for v in pdcol]),
             cq.lst(["(mkXw %s %s %s %s %s %s)" % (cq.nat(r["pbus"]), cq.nat(r["k"]), cq.q(r["ps"]), cq.q(r["w"]), cq.b(r["ins"]), cq.b(r["on"])) for r in xws])))
         T["xw_p"].append((impl_x, case))
     # ---- oracle: ratio law on the result tables
@@ -232,7 +235,18 @@ def _one(ctx, rng, T, given=None, sample=False):
             keep_bad.append("non-participating xward %d deviates from its setpoint by %.6g MW" % (r["idx"], ix - r["ps"]))
         elif r["on"] and ix is None:
             keep_bad.append("xward %d: res_xward.p_mw is NaN" % r["idx"])
-    T["orc"].append((x, ratios, xr, keep_bad, xws, others, case))
+        elif not r["on"] and (ix is None or abs(ix) > 1e-7):
+            keep_bad.append("xward %d is out of service but reports p_mw = %r" % (r["idx"], ix))
+    # nodal balance on the result tables (the ZIP defects of C01 are that property's findings and are left to it)
+    E = pf.element_sums_by_bus(net, x)
+    F = pf.branch_flows_by_bus(net, x)
+    bal = []
+    for k in range(x.nb):
+        if k in E or k in F:
+            r_ = E.get(k, 0j) + F.get(k, 0j)
+            if abs(r_.real) > TOL or abs(r_.imag) > 2 * TOL:
+                bal.append((k, r_))
+    T["orc"].append((x, ratios, xr, keep_bad, xws, others, case, bal))
     ctx.case({"net_sha": hashlib.sha1(net_js.encode()).hexdigest(), "opts": opts}, nontrivial=nontriv,
              sample={"input": {"ext_grid_w": [float(v) for v in net.ext_grid.slack_weight.values], "gen_w": [float(v) for v in net.gen.slack_weight.values],
                                "xward_w": [float(v) for v in net.xward.slack_weight.values]},
@@ -240,36 +254,20 @@ def _one(ctx, rng, T, given=None, sample=False):
 
 
 def _judge(ctx, T, gen_ok, xw_ok):
-    for n_, (x, ratios, xr, keep_bad, xws, others, case) in enumerate(T["orc"]):
-        # participants on generator rows
-        zipbus = set(k for k in range(x.nb) if not pf.py_guards(x, k)[2])        # G01gp false
-        g10x = _py_G10x(x, xws, others) if xws else True
-        any_xw_weight = any(r["on"] and r["w"] != 0 for r in xws)
+    for n_, (x, ratios, xr, keep_bad, xws, others, case, bal) in enumerate(T["orc"]):
         allr = ratios + xr
         if allr:
-            clean = [r for _, r, k in ratios if k not in zipbus]
-            refv = clean[0] if clean else ratios[0][1] if ratios else xr[0][1]
-            for lab, r, k in ratios:
+            refv = allr[0][1]
+            for lab, r, k in allr[1:]:
                 if abs(r - refv) > 1e-5 * max(1.0, abs(refv)):
-                    what = "%s: deviation/weight = %.8g, other participants %.8g" % (lab, r, refv)
-                    if (k in zipbus or not clean) and gen_ok.get(n_, False):
-                        ctx.violation("C10-zip-at-participant-bus", what, case); ctx.count("known:C10-zip-at-participant-bus")
-                    else:
-                        ctx.violation("spec", what, case)
-            for lab, r, k in xr:
-                if abs(r - refv) > 1e-5 * max(1.0, abs(refv)):
-                    what = "%s: deviation/weight = %.8g, other participants %.8g" % (lab, r, refv)
-                    if (not g10x) and xw_ok.get(n_, False):
-                        ctx.violation("C10-xward-extraction", what, case); ctx.count("known:C10-xward-extraction")
-                    elif k in zipbus and xw_ok.get(n_, False):
-                        ctx.violation("C10-zip-at-participant-bus", what, case); ctx.count("known:C10-zip-at-participant-bus")
-                    else:
-                        ctx.violation("spec", what, case)
+                    ctx.violation("spec", "%s: deviation/weight = %.8g, %s: %.8g" % (lab, r, allr[0][0], refv), case)
+        for k, r_ in bal:
+            g = pf.py_guards(x, k)
+            if not all(g[:2]):
+                ctx.count("balance_left_to_C01_guard_G01")     # ZIP averaging (C01-zip-average), that property's finding
+            else:
+                ctx.violation("spec", "nodal balance at ppc bus %d violated under distributed slack: %r MVA" % (k, r_), case)
         for w in keep_bad:
-            if w.startswith("non-participating xward") or w.startswith("xward"):
-                if any_xw_weight and not g10x and xw_ok.get(n_, False):
-                    ctx.violation("C10-xward-extraction", w, case); ctx.count("known:C10-xward-extraction")
-                    continue
             ctx.violation("spec", w, case)
 
 
@@ -287,7 +285,7 @@ def run(ctx, only=None):
     T = {k: [] for k in ("norm_t", "norm_p", "gen_t", "gen_p", "xw_t", "xw_p", "orc")}
     idx_gen, idx_xw = [], []     # oracle index of each gen / xward comparison
     if only is None:
-        todo = [(g, False) for g in _corpus()] + [(None, k < 2) for k in range(ctx.n(150, 2500))]
+        todo = [(g, False) for g in _corpus()] + [(None, k < 2) for k in range(ctx.n(100, 2500))]
     else:
         todo = [(g, True) for g in only]
     for given, sample in todo:
@@ -298,12 +296,12 @@ def run(ctx, only=None):
         if len(T["xw_t"]) > x0:
             idx_xw.append(len(T["orc"]) - 1)
     req = "Base.QN Base.QC C01.Model C10.Model"
-    nm = ctx.coq_eval("c10n", req, T["norm_t"], shard=40) if T["norm_t"] else []
+    nm = ctx.coq_eval("c10n", req, T["norm_t"], shard=25, timeout=900) if T["norm_t"] else []
     for (impl, case), m in zip(T["norm_p"], nm):
         ctx.corr_checked += 1
         mres, g10w = m
         if not g10w:
-            ctx.count("G10w_false")
+            ctx.count("old_pairing_guard_G10w_false")
         if isinstance(impl, cq.Err) or isinstance(mres, cq.Err):
             if impl != mres:
                 ctx.disagreement("_normalise_slack_weights: impl %r model %r" % (impl, mres), case)
@@ -312,7 +310,7 @@ def run(ctx, only=None):
         if bad:
             ctx.disagreement("_normalise_slack_weights: " + "; ".join(bad[:4]), case)
     gen_ok, xw_ok = {}, {}
-    gm = ctx.coq_eval("c10g", req, T["gen_t"], shard=15, timeout=280) if T["gen_t"] else []
+    gm = ctx.coq_eval("c10g", req, T["gen_t"], shard=6, timeout=900) if T["gen_t"] else []
     for oi, (pg_i, pd_i, case), m in zip(idx_gen, T["gen_p"], gm):
         ctx.corr_checked += 1
         pg_m, pd_m, ref_m = m
@@ -321,13 +319,9 @@ def run(ctx, only=None):
         gen_ok[oi] = not bad
         if bad:
             ctx.disagreement("distributed slack pfsoln: " + "; ".join(bad[:4]), case)
-    xm = ctx.coq_eval("c10x", req, T["xw_t"], shard=40) if T["xw_t"] else []
+    xm = ctx.coq_eval("c10x", req, T["xw_t"], shard=8, timeout=900) if T["xw_t"] else []
     for oi, (impl, case), m in zip(idx_xw, T["xw_p"], xm):
         ctx.corr_checked += 1
-        if isinstance(m, cq.Err):
-            xw_ok[oi] = False
-            ctx.disagreement("res_xward: model raises ValueError (broadcast), impl returned %r" % (impl,), case)
-            continue
         bad = ["xward row %d impl %r model %s" % (r, a, None if b is None else float(b)) for r, (a, b) in enumerate(zip(impl, m))
                if not ((a is None and b is None) or (a is not None and b is not None and pf.close(b, a, 1e-7, 1e-6)))]
         xw_ok[oi] = not bad
